@@ -923,6 +923,8 @@ impl Monitor for C18 {
                             }
                         };
                         let idx = pick(&exact).or_else(|| pick(&holds)).or_else(|| if loc == "start" { got.iter().position(|c| exact(c)) } else { got.iter().rposition(|c| exact(c)) });
+                        // a new comment spelled exactly like an original one: the copy at the requested end of the file is the new one
+                        let idx = idx.map(|ix| if loc == "start" { got.iter().position(|c| *c == got[ix]).unwrap_or(ix) } else { got.iter().rposition(|c| *c == got[ix]).unwrap_or(ix) });
                         match idx {
                             None => edits.push(Diff { class: "text-not-in-comment".into(), detail: format!("text {:?} at {}: no comment of the output contains it: {:?}", text, loc, b.comments.iter().take(6).collect::<Vec<_>>()) }),
                             Some(ix) => {
